@@ -77,6 +77,7 @@ struct Conn {
     bool fin_arrived = false;        // broker's FIN arrived at the client (reads drain then EOF)
     bool broker_closed = false;      // broker side no longer sends/receives
     bool blackhole = false;
+    bool severed = false;            // a reset was injected on the path: bytes sent from now on go nowhere (in either direction)
     bool fault_injected = false;     // any injected transport fault touched this connection
     std::vector<std::string> fault_log;
 
